@@ -127,11 +127,11 @@ PROPS = {
         ),
     "C16": flow(
         "W-flows",
-        "deterministic simulation: seeded histories of device authorization, approval, denial, expiry (clock jumps) and polling by initiating and foreign clients, including the real rp.DeviceAccessToken polling loop on the simulated clock and storage time-outs",
+        "deterministic simulation: seeded histories of device authorization, approval, denial, expiry (clock jumps) and polling by initiating and foreign clients, including the real rp.DeviceAccessToken polling loop on the simulated clock, storage time-outs, and scheduled concurrent groups (polls by the initiating and a foreign client interleaved with the user's approval or denial at every storage call)",
         "one evaluation = one seeded world (router, user-code alphabet/length/dash interval, lifetime, poll interval) running 30-70 actor steps: start (any client, any credential presentation), approve/deny, poll (right/foreign client, unknown code, "
         "injected storage timeout), clock advance, and a complete client polling loop with approval/denial/expiry after 0-3 polls. non-trivial = tokens were issued at least once; distinct = distinct step history",
         {"runs": 40, "wall": 90}, {"runs": 8000, "wall": 1200},
-        {"quick": {"_runs": 400, "device-started": 1500, "device-tokens": 500, "poll-loop-approve": 500, "poll-answer-slow_down": 100, "poll-answer-expired_token": 100, "poll-answer-access_denied": 100, "storage-timeout": 100, "user-code-collisions": 50},
+        {"quick": {"_runs": 400, "device-started": 1500, "device-tokens": 500, "poll-loop-approve": 500, "poll-answer-slow_down": 100, "poll-answer-expired_token": 100, "poll-answer-access_denied": 100, "storage-timeout": 100, "user-code-collisions": 50, "race-groups": 500, "race-device-tokens": 150},
          "thorough": {"_runs": 20000}},
         "Seeded exploration; tokens imply approval of that code by the ledger user and the initiating, authenticated client; refusals follow the reference state machine (pending/denied/expired/slow_down); response fields follow the configuration; bounded progress of the real polling loop after approval.",
         "DESIGN.md section 4 C16 and Appendix C"),
